@@ -76,7 +76,7 @@ class WorldA:
         self.circs: dict[str, Circ] = {}
         self.order: list[str] = []
         self.ctx: Any = None
-        self.store: dict[str, tuple[bytes, dict[str, int], str]] = {}
+        self.store: dict[str, tuple[Any, ...]] = {}  # slot -> (bytes, versions, owner, digests, outputs)
         self.version_counter = 0
         self.memo: dict[tuple[str, tuple[int, ...]], list[str]] = {}
         self.memo_vals: dict[tuple[str, tuple[int, ...]], list[torch.Tensor]] = {}
@@ -85,6 +85,7 @@ class WorldA:
         self.refusals = _refusal_types()
         self.check_rng = random.Random(plan["check_seed"])
         self.hooks: list[Any] = []  # property-specific checkers: fn(world, op, info)
+        self.on_reset: list[Any] = []  # observers of every single reset inside a burst
         self._new_context()
 
     # ------------------------------------------------------------------ utilities
@@ -552,6 +553,25 @@ class WorldA:
                 info["mutated"] = changed
         return info
 
+    def op_reset_burst(self, op: dict[str, Any]) -> dict[str, Any]:
+        """``count`` resets of one circuit in a row (repeated resets are a history too); the
+        ``on_reset`` observers see the state after each of them."""
+        c = self.get(op["target"])
+        if c is None:
+            return {"status": "noop"}
+        before = {b: self.params_digest(self.circs[b]) for b in c.bases}
+        n = int(op.get("count", 10))
+        for j in range(n):
+            seed_rng(op["seed"] + 101 * j)
+            c.cc.reset_parameters()
+            for fn in self.on_reset:
+                fn(c, j)
+        self.tr.count("resets-in-bursts", n)
+        changed = [b for b in c.bases if self.params_digest(self.circs[b]) != before[b]]
+        for b in changed:
+            self._mutated(self.circs[b])
+        return {"status": "ok", "mutated": changed, "burst": c, "resets": n}
+
     def op_save(self, op: dict[str, Any]) -> dict[str, Any]:
         c = self.get(op["target"])
         if c is None:
@@ -560,7 +580,12 @@ class WorldA:
         sd = c.cc.state_dict()
         torch.save(sd, buf)
         vers = {b: self.circs[b].version for b in c.bases}
-        self.store[op["slot"]] = (buf.getvalue(), vers, c.name)
+        digs = {b: self.params_digest(self.circs[b]) for b in c.bases}
+        try:
+            outs = [o.clone() for o in self.eval_all(c)]
+        except Exception:
+            outs = None
+        self.store[op["slot"]] = (buf.getvalue(), vers, c.name, digs, outs)
         self.tr.ev("saved", op["slot"], c.name, sorted(vers.items()), len(sd))
         return {"status": "ok", "saved": c, "state_dict": sd}
 
@@ -569,7 +594,7 @@ class WorldA:
         ent = self.store.get(op["slot"])
         if c is None or ent is None:
             return {"status": "noop"}
-        data, vers, owner = ent
+        data, vers, owner, digs, outs = ent
         if owner != c.name:
             return {"status": "noop"}
         sd = torch.load(io.BytesIO(data), weights_only=True)
@@ -583,19 +608,53 @@ class WorldA:
                 return {"status": "refused"}
             raise Violation(
                 "S1",
-                f"load_state_dict(strict=True) of {c.name} failed in incarnation "
-                f"{self.incarnation}: {type(e).__name__}: {str(e)[:200]}",
+                f"load_state_dict(strict=True) of {c.name} ({self._describe(c)}) failed in "
+                f"incarnation {self.incarnation}: {type(e).__name__}: {str(e)[:200]}",
             )
         if (res.missing_keys or res.unexpected_keys) and "S1" in self.checks:
             raise Violation("S1", f"{c.name}: missing {res.missing_keys} unexpected {res.unexpected_keys}")
+        # A derived circuit only stores the operand tensors it reads: an operand is back at the
+        # saved version only if *all* its tensors are what they were at save time; otherwise it
+        # is in a new (mixed) state - a legitimate update like any other.
+        mutated = []
         for b, v in vers.items():
-            bc = self.circs[b]
-            bc.version = v
+            bc = self.circs.get(b)
+            if bc is None or not bc.alive:
+                continue
+            if self.params_digest(bc) == digs[b]:
+                bc.version = v
+                self.tr.count("load:version-restored")
+            else:
+                self.new_version(bc)
+                self.tr.count("load:version-mixed")
+            mutated.append(b)
             for d in self.alive():
                 if b in d.bases and d is not bc:
                     d.mutated_after_birth = True
         self.tr.count("load:fresh" if self.incarnation > 0 else "load:same")
-        return {"status": "ok", "loaded": c, "mutated": list(vers)}
+        if "D2" in self.checks and outs is not None:
+            # the property itself: the loaded circuit computes what the saved one computed
+            try:
+                now = self.eval_all(c)
+            except Exception as e:
+                raise Violation(
+                    "D2", f"{c.name} ({self._describe(c)}) raises {type(e).__name__} after loading "
+                          f"its saved state: {str(e)[:120]}")
+            for a, b_ in zip(now, outs):
+                self.tr.count("cmp:D2")
+                v_, d_ = compare_outputs(a, b_, self.semiring, rel=1e-12, logabs=1e-12)
+                if v_ == "undefined":
+                    self.tr.count("cmp:undefined")
+                elif v_ != "ok":
+                    raise Violation(
+                        "D2",
+                        f"{c.name} ({self._describe(c)}) does not compute the outputs it had when "
+                        f"its state was saved, after loading that state in incarnation "
+                        f"{self.incarnation} [{v_}, |d|={d_:.3e}]",
+                    )
+                elif d_ == 0.0:
+                    self.tr.count("cmp:D2-exact")
+        return {"status": "ok", "loaded": c, "mutated": mutated}
 
     def op_recompile(self, op: dict[str, Any]) -> dict[str, Any]:
         c = self.get(op["target"])
@@ -1015,6 +1074,8 @@ class WorldA:
             subset = live if len(live) <= k else self.check_rng.sample(live, k)
             if "born" in info and info["born"] not in subset:
                 subset.append(info["born"])
+            if "loaded" in info or info.get("restart"):
+                subset = live  # a load / restart is where durability shows: look at everything
             self.check_learnables(subset)
             self.check_fresh(subset, where=f"after {op['op']} at step {self.tr.step}")
             self.check_relations(subset)
